@@ -174,7 +174,7 @@ def _adjoint_path(res, cfg, facts0, run, shapes, sub, none, tau, interior_fn, ma
         dd = first + Poly.var(int(cids[0].reshape(-1)[0])) * Fraction(1, 10 ** 6) * max(1, int(float(tau) * 10 ** 9))
         cs = smt.Solver(stats=smt.Stats()); cs.keep_sample = False
         v, m = cs.decide(dd, tau)
-        if v != 'sat':
+        if v == 'unsat':
             res.status = 'error'; res.trace = 'canary query was not refuted (%s)' % v; return None
     res.stats = st
     for k, idx, model, interior, kind in sats:
